@@ -92,6 +92,29 @@ def directed(rnd, quick):
     return cases
 
 
+def limit_cases(quick):
+    """C15 'the parser buffers no more than its configured limit': bodies 64 times the limit - an endless header line, an endless
+    preamble, and long contents (plain and full of CR / LF / dashes) - fed in chunks smaller and larger than the limit."""
+    cases = []
+    for limit in ((1024,) if quick else (1024, 8192)):
+        big = 64 * limit
+        for chunk in (limit // 4, limit * 4):
+            def segs(n):
+                return [chunk] * (n // chunk + 1)
+            # (a) a part whose header block never ends; (b) a preamble line that never ends: both must end in an error
+            for body in ("--PQ\r\nx-h: " + "a" * big, "p" * big):
+                cases.append({"boundary": "PQ", "body": body, "fields": [], "segs": segs(len(body)), "complete": False, "lie": False,
+                              "cls": "buffer-limit", "limit": limit})
+            # (c) long contents are streamed through, whatever they look like
+            for unit in ("c", "\r\n-", "\r"):
+                content = (unit * (big // len(unit) + 1))[:big]
+                c = build([{"name": "f", "content": content}], cls="buffer-limit")
+                c["segs"] = segs(len(c["body"]))
+                c["limit"] = limit
+                cases.append(c)
+    return cases
+
+
 def random_cases(rnd, n):
     cases = []
     alpha = ["x", "y", "\r", "\n", "-", "P", "Q", "\r\n", "--", "\r\n--", "\r\n--P"]
@@ -139,12 +162,13 @@ def run(rep):
     cap = 3000 if quick else 60000
     sc = rnd.sample(sc, cap) if len(sc) > cap else sc
     cases = [from_model(tc) for tc in sc]
-    extra = directed(rnd, quick) + random_cases(rnd, 300 if quick else 6000)
+    extra = directed(rnd, quick) + random_cases(rnd, 300 if quick else 6000) + limit_cases(quick)
     rep.cov["distinct_nontrivial"] = len({c["body"] + "|" + json.dumps(c["segs"]) for c in cases + extra})
     rep.cov["rule"] = ("(a) MpScan: all field contents up to the length bound over {x, CR, LF, '-', boundary letters} x every segmentation x every "
                        "truncation point, enumerated by TLC and concretised one byte per symbol; (b) look-alike contents in 2-field bodies cut "
                        "at every offset around the delimiter and truncated at every offset; per-field Content-Length truthful/too small/too "
-                       "large; (c) random field lists and cuts. distinct = distinct (body, segmentation) pairs")
+                       "large; (c) random field lists and cuts; (d) bodies 64 times a configured buffer limit (endless header line / preamble, long "
+                       "contents) with the parser's heap high-water mark against the limit. distinct = distinct (body, segmentation) pairs")
     for c in cases[:2] + extra[:1]:
         rep.sample({"body": c["body"], "segs": c["segs"][:12], "complete": c["complete"]})
     tpath = ar.run_cases(cases + extra, "all")
